@@ -48,7 +48,7 @@ def runHist (fl : Flags) (b : Block) : Res :=
       let ctx : Ctx := { env := sc.env, g := cgrRedef.cg.g, funcOf := sc.funcOfKey bld.convs, beh := zeroBeh outCount,
                          memoCopy := fl.memoCopy, publishAfterUpdate := fl.publishAfterUpdate,
                          trackReaching := fl.trackReaching, takeValuedNamed := fl.takeValuedNamed,
-                         skipRecordsInput := fl.skipRecordsInput }
+                         skipRecordsInput := fl.skipRecordsInput, hopCopies := fl.hopCopies }
       let o := redefine ctx cgrRedef target none (fuelFor sc) { initSt cgrRedef.cg h.memo items with count := h.count } fl.dupIsError
       let c := if showRedef o = showImplRedef rdres then none
                else some s!"op{h.ops}_redefine_model=[{noSpace (showRedef o)}]_impl=[{noSpace (showImplRedef rdres)}]"
@@ -141,8 +141,14 @@ def runRace (b : Block) : Res :=
       | none => if raceL.isEmpty then some "no_race_verdict" else none
   let c11 : Option String := (once.find? (fun p => p.2 > 1)).map (fun p => s!"run-once_function_f{p.1}_executed_{p.2}_times_concurrently")
   let c06 : Option String := (got.find? (fun o => o.startsWith "panic:")).map (fun o => s!"concurrent_{o}")
+  -- C04: when every sequential execution reports a function's own error (a memoised failure of a run-once
+  -- converter the target depends on), no concurrent call may succeed
+  let c04 : Option String :=
+    if !seq.isEmpty ∧ seq.all (fun o => o == "err:e0") ∧ got.any (fun o => o.startsWith "ok:") then
+      some "call_succeeded_although_a_converter_it_needs_failed"
+    else none
   { conform := none, propNA := true,
-    props := [("C12", verdictStr c12), ("C11", verdictStr c11), ("C06", verdictStr c06)],
+    props := [("C12", verdictStr c12), ("C11", verdictStr c11), ("C06", verdictStr c06), ("C04", verdictStr c04)],
     stats := [s!"execs={(once.map (·.2)).foldl (· + ·) 0 + 1}", s!"once={once.length}", s!"outcome=race", s!"convs={once.length}"] }
 
 end ArgMapper.Driver
